@@ -139,6 +139,33 @@ impl<'tcx> Cx<'tcx> {
         }
     }
 
+
+    /// Read a (ptr,len) fat pointer to bytes/str stored at `off` in allocation `alloc_id`.
+    fn read_fat(&self, alloc_id: mir::interpret::AllocId, off: usize) -> Option<Vec<u8>> {
+        if let Some(GlobalAlloc::Memory(a)) = self.tcx.try_get_global_alloc(alloc_id) {
+            let a = a.inner();
+            if off + 16 <= a.len() {
+                let raw = a.inspect_with_uninit_and_ptr_outside_interpreter(off..off + 16).to_vec();
+                let mut target = None;
+                for (o2, prov) in a.provenance().ptrs().iter() {
+                    if o2.bytes() as usize == off {
+                        target = Some(prov.alloc_id());
+                    }
+                }
+                if let Some(tid) = target {
+                    let poff = u64::from_le_bytes(raw[0..8].try_into().unwrap()) as usize;
+                    let len = u64::from_le_bytes(raw[8..16].try_into().unwrap()) as usize;
+                    return self.read_alloc(tid, poff, len);
+                }
+            }
+        }
+        None
+    }
+
+    fn is_fat_bytes(&self, t: Ty<'tcx>) -> bool {
+        matches!(t.kind(), ty::Ref(_, inner, _) if inner.is_str() || matches!(inner.kind(), ty::Slice(e) if *e == self.tcx.types.u8))
+    }
+
     fn const_value(&self, v: ConstValue, t: Ty<'tcx>, env: TypingEnv<'tcx>) -> J {
         let mut o: Vec<(&'static str, J)> = vec![("ty", self.ty(t))];
         match v {
@@ -168,6 +195,21 @@ impl<'tcx> Cx<'tcx> {
                 if let Some(GlobalAlloc::Function { instance }) = self.tcx.try_get_global_alloc(alloc_id) {
                     o.push(("fnptr", s(self.path(instance.def_id()))));
                     done = true;
+                }
+                if !done {
+                    if let Some(pt) = pointee {
+                        if self.is_fat_bytes(pt) {
+                            if let Some(b) = self.read_fat(alloc_id, off.bytes() as usize) {
+                                let is_str = matches!(pt.kind(), ty::Ref(_, inner, _) if inner.is_str());
+                                if is_str {
+                                    o.push(("str", s(String::from_utf8_lossy(&b).to_string())));
+                                }
+                                o.push(("slice_bytes", s(Self::bytes_hex(&b))));
+                                o.push(("ref_depth", J::Int(2)));
+                                done = true;
+                            }
+                        }
+                    }
                 }
                 if !done {
                     if let Some(pt) = pointee {
@@ -205,33 +247,14 @@ impl<'tcx> Cx<'tcx> {
             }
             ConstValue::Indirect { alloc_id, offset } => {
                 let mut done = false;
-                // fat pointer to a byte slice / str stored in memory: (ptr, len)
-                let fat = matches!(t.kind(), ty::Ref(_, inner, _) if inner.is_str() || matches!(inner.kind(), ty::Slice(e) if *e == self.tcx.types.u8));
-                if fat {
-                    if let Some(GlobalAlloc::Memory(a)) = self.tcx.try_get_global_alloc(alloc_id) {
-                        let a = a.inner();
-                        let off = offset.bytes() as usize;
-                        if off + 16 <= a.len() {
-                            let raw = a.inspect_with_uninit_and_ptr_outside_interpreter(off..off + 16).to_vec();
-                            let mut target = None;
-                            for (o2, prov) in a.provenance().ptrs().iter() {
-                                if o2.bytes() as usize == off {
-                                    target = Some(prov.alloc_id());
-                                }
-                            }
-                            if let Some(tid) = target {
-                                let poff = u64::from_le_bytes(raw[0..8].try_into().unwrap()) as usize;
-                                let len = u64::from_le_bytes(raw[8..16].try_into().unwrap()) as usize;
-                                if let Some(b) = self.read_alloc(tid, poff, len) {
-                                    let is_str = matches!(t.kind(), ty::Ref(_, inner, _) if inner.is_str());
-                                    if is_str {
-                                        o.push(("str", s(String::from_utf8_lossy(&b).to_string())));
-                                    }
-                                    o.push(("slice_bytes", s(Self::bytes_hex(&b))));
-                                    done = true;
-                                }
-                            }
+                if self.is_fat_bytes(t) {
+                    if let Some(b) = self.read_fat(alloc_id, offset.bytes() as usize) {
+                        let is_str = matches!(t.kind(), ty::Ref(_, inner, _) if inner.is_str());
+                        if is_str {
+                            o.push(("str", s(String::from_utf8_lossy(&b).to_string())));
                         }
+                        o.push(("slice_bytes", s(Self::bytes_hex(&b))));
+                        done = true;
                     }
                 }
                 if done {
@@ -727,7 +750,9 @@ impl<'tcx> Cx<'tcx> {
                 }
                 DefKind::Impl { .. } => {
                     let st = tcx.type_of(did).instantiate_identity().skip_norm_wip();
+                    let ig = tcx.generics_of(did);
                     let mut o = vec![
+                        ("generics", J::Arr(ig.own_params.iter().map(|p| s(p.name.to_string())).collect())),
                         ("self", self.ty(st)),
                         ("span", self.span(tcx.def_span(did))),
                         ("exp", J::Bool(tcx.def_span(did).from_expansion())),
